@@ -30,7 +30,7 @@ def check(tier, seed, replay=None):
              "prog": "min x_{k * 0} + x_1\ns.t.\n    x_{k * 0} >= 1\n    x_1 >= 2\nwhere\n    let k = 0 - 3\n" + decl,
              "unrolled": "min x_0 + x_1\ns.t.\n    x_0 >= 1\n    x_1 >= 2\n" + decl},
         ]
-        for fam in ("one", "enum", "graph", "prod", "logic", "sets", "scope", "mixed", "alias", "agg"):
+        for fam in ("one", "enum", "graph", "prod", "logic", "sets", "scope", "mixed", "alias", "agg", "compose"):
             cs, g, d = core.gen_cases(SPEC_DIR, "Expand.tla", f"Gen_{fam}.cfg", "exp" + fam, workers=4)
             for i, c in enumerate(cs):
                 c["id"] = f"{fam}_{i}"
